@@ -5,4 +5,4 @@ From V Require Import Base Validate.
 Extraction Language OCaml.
 Extraction "vmodel.ml" validate wf_chartb conformantb single_machine plain_ids wf_root wf_nesting wf_ids wf_targets
   wf_initattr wf_initial_el wf_history wf_target_sets legal_cfg has_legal_completion pairwise_compatible
-  root_el descendants all_configs syntax_warnings vv_pinned vv_fixed Build_vvariant Build_gattrs.
+  root_el descendants all_configs syntax_warnings vv_pinned vv_fixed vv_hist_unchecked Build_vvariant Build_gattrs.
